@@ -89,7 +89,7 @@ pub fn decrypt_with_password(password: &str, data: &str) -> Result<String, JsErr
     let password = hex::decode(password).map_err(|e| JsError::from_str(&e.to_string()))?;
     let data = hex::decode(data).map_err(|e| JsError::from_str(&e.to_string()))?;
 
-    if data.len() <= METADATA_SIZE {
+    if data.len() < METADATA_SIZE {
         // not enough input to decrypt.
         return Err(JsError::from_str("Missing input data"));
     }
